@@ -9,7 +9,7 @@ PLAN = {
     'C11': dict(test='TestC11', mc=['MC_Codec_C11.cfg']),
     'C18': dict(test='TestC18', mc=['MC_Codec_C18.cfg']),
     'C02': dict(test='TestC02', mc=['MC_Codec_C11.cfg']),
-    'C15': dict(test='TestC15', mc=['MC_Codec_C11.cfg']),
+    'C15': dict(test='TestC15', mc=['MC_Codec_C11.cfg'], extra=[('./netdrv/', 'TestC15Datagram')]),
     'C01': dict(test='TestC01', mc=['MC_Codec_C11.cfg'], extra=[('./netdrv/', 'TestC01Recv')]),
     'C16': dict(test='TestC16', pkg='./netdrv/', mc=[], sock=True),
     'C20': dict(test='TestC20', pkg='./netdrv/', mc=[], lookup=True),
